@@ -110,7 +110,12 @@ func (f Valuer) Value() (driver.Value, error) {
 		}
 		return json.Marshal(i)
 	case f.Tags.Contains("implicitnull"):
-		if isZero(f.value) {
+		// A filter may pass a pointer to the value; nil pointers returned above.
+		v := f.value
+		if v.Kind() == reflect.Ptr {
+			v = v.Elem()
+		}
+		if isZero(v) {
 			return nil, nil
 		}
 	}
